@@ -639,10 +639,12 @@ class _OrbitDynamicsService(_DynamicsServiceBase):
                 state_vector_cls=SynodicStateVector,
                 frame=ReferenceFrame.ROTATING,
             )
-            self._trajectory = traj
             return traj
 
-        return self.get_or_create(cache_key, _factory)
+        # Record the trajectory outside the memoised factory so that a cache hit
+        # updates it too (otherwise `trajectory` kept the last *computed* one).
+        self._trajectory = self.get_or_create(cache_key, _factory)
+        return self._trajectory
 
     def manifold(self, stable: bool = True, direction: Literal["positive", "negative"] = "positive") -> "Manifold":
         """Create a manifold for the orbit.
@@ -681,10 +683,11 @@ class _OrbitDynamicsService(_DynamicsServiceBase):
             _, _, Phi, _ = _compute_stm(self.var_dynsys, self.initial_state, self.period)
             backend = _LinalgBackend()
             indices, eigvals, eigvecs = backend.stability_indices(Phi)
-            self._stability_info = (indices, eigvals, eigvecs)
             return indices, eigvals, eigvecs
 
-        return self.get_or_create(cache_key, _factory)
+        # Recorded outside the memoised factory so that a cache hit restores it too.
+        self._stability_info = self.get_or_create(cache_key, _factory)
+        return self._stability_info
 
     @property
     def amplitude(self) -> float:
